@@ -167,6 +167,9 @@ func knownKeys() map[string]bool {
 
 var traceAll = os.Getenv("VERIF_TRACE_ALL") != ""
 
+// development aid only (never set by a registered command): always run this template
+var forceTpl = os.Getenv("VERIF_FORCE_TPL")
+
 type caseResult struct {
 	incidental []*failure
 	trace    []string
@@ -284,7 +287,7 @@ func (c *cluster) generate(rt *rapid.T, p *profile, spec *checkSpec) {
 			if c.failed() {
 				break
 			}
-			if rapid.IntRange(0, 99).Draw(rt, "tpl-"+n) < p.tpl[n] {
+			if rapid.IntRange(0, 99).Draw(rt, "tpl-"+n) < p.tpl[n] || forceTpl == n {
 				if c.blackbox && n != "lagsnap" {
 					continue // the others need white-box state
 				}
